@@ -77,14 +77,20 @@ def cases(draw, subject):
     stream = [[t] + r for t, r in zip(ts, rows)]
     mode = draw(st.sampled_from(("batch", "append", "append")))
     preload = 0 if mode == "batch" else min(n, draw(st.sampled_from((0, 0, 1, n // 2))))
+    chunks_ = [] if mode == "batch" else draw(gs.chunking(n - preload))
+    lifespan = None
+    if not tf and mode == "append" and draw(st.integers(0, 3)) == 0:
+        # a rolling window that always holds the look-back of every new candle (warm-up + the largest chunk + margin)
+        lifespan = (w + max([preload] + list(chunks_) + [1]) + draw(st.integers(2, 12))) * 60
     return {
+        "lifespan": lifespan,
         "cfg": cfg,
         "tf": tf,
         "fill": fill,
         "stream": stream,
         "mode": mode,
         "preload": preload,
-        "chunks": [] if mode == "batch" else draw(gs.chunking(n - preload)),
+        "chunks": chunks_,
         "tzoff": draw(st.sampled_from(TZOFFS)),  # timezone-aware timestamps are well-formed input too
         "interlude": interlude(lambda a, b: draw(st.integers(a, b)), lambda xs: draw(st.sampled_from(xs))) if draw(st.integers(0, 3)) == 0 else None,
     }
